@@ -392,6 +392,13 @@ func main() {
 			if heavy {
 				scs = append(scs, scenario{Tmpl: t.Name, N: 2, Bound: 1, GateOnly: true})
 				scs = append(scs, scenario{Tmpl: t.Name, N: 2, Bound: 1})
+			} else if t.Name == "view-render" {
+				// the template engine takes an order of magnitude more locks per request: bounds
+				// chosen so that the quick tier completes them (the thorough tier goes further)
+				scs = append(scs, scenario{Tmpl: t.Name, N: 2, Bound: 3, GateOnly: true})
+				scs = append(scs, scenario{Tmpl: t.Name, N: 2, Bound: 2})
+				scs = append(scs, scenario{Tmpl: t.Name, N: 3, Bound: 2, GateOnly: true})
+				scs = append(scs, scenario{Tmpl: t.Name, N: 3, Bound: 1})
 			} else {
 				scs = append(scs, scenario{Tmpl: t.Name, N: 2, Bound: -1, GateOnly: true})
 				scs = append(scs, scenario{Tmpl: t.Name, N: 2, Bound: 3})
